@@ -10,8 +10,9 @@ Theorem C20_source_facts :
   log_levels_table_shape = true /\ check_level_shape = true /\ handle_shape = true /\ handle_compares_ge = true /\
   set_conn_level_shape = true /\ module_sets_own_name = true /\ set_all_iterates_all_modules = true /\
   handle_logging_shape = true /\ reset_sets_all_off = true /\ remove_calls_reset = true /\ ident_calls_reset = true /\
-  send_log_msg_shape = true /\ rollover_guard_max_days = true /\ (rollover_slice_code = 0 \/ rollover_slice_code = 1).
-Proof. repeat split; try reflexivity. left; reflexivity. Qed.
+  send_log_msg_shape = true /\ rollover_guard_max_days = true /\ rollover_lists_own_logs = true /\
+  rollover_slice_code = 1 /\ source_slice = SliceHead.
+Proof. repeat split; reflexivity. Qed.
 
 (* Routing, full strength and exact: after ANY history, the messages connection c gets for a record of module m
    with level number lv are exactly [expected]: one message (c, m, name of lv) if the latest deciding request of c
@@ -71,57 +72,57 @@ Qed.
 (* Rotation, whatever the slice and the retention: a rollover creates nothing but the `current` link and the file of
    the day, and never removes the `current` link. *)
 Theorem C20_rollover_frame : forall k prefix n d date,
-  (forall e, In e (fst (do_rollover k prefix n d date)) -> In e (open_file d (log_name prefix date))) /\
-  has_name cur_name (fst (do_rollover k prefix n d date)) = true.
+  (forall e, In e (do_rollover k prefix n d date) -> In e (open_file d (log_name prefix date))) /\
+  has_name cur_name (do_rollover k prefix n d date) = true.
 Proof. intros; apply rollover_frame. Qed.
+
+(* Foreign entries -- anything that is not a regular file named <root>-*.log: other files, sub-directories such as comlog,
+   links -- survive every rollover with every retention (was finding C20/rollover-removes-foreign, repaired by f977176). *)
+Theorem C20_foreign_entries_never_removed : forall prefix n d date e,
+  NoDup (map e_name d) ->
+  In e (open_file d (log_name prefix date)) -> own_log prefix e = false ->
+  In e (do_rollover source_slice prefix n d date).
+Proof. intros; apply rollover_keeps_foreign; assumption. Qed.
 
 (* retention 0: nothing is removed, the file of the day exists *)
 Theorem C20_retention_zero_keeps_all : forall k prefix d date,
-  do_rollover k prefix 0 d date = (open_file d (log_name prefix date), false) /\
-  (forall e, In e d -> e_name e <> cur_name -> In e (fst (do_rollover k prefix 0 d date))) /\
-  has_name (log_name prefix date) (fst (do_rollover k prefix 0 d date)) = true.
+  do_rollover k prefix 0 d date = open_file d (log_name prefix date) /\
+  (forall e, In e d -> e_name e <> cur_name -> In e (do_rollover k prefix 0 d date)) /\
+  has_name (log_name prefix date) (do_rollover k prefix 0 d date) = true.
 Proof. intros; apply rollover_zero. Qed.
 
-(* Retention N > 0.  Full statement (the property): the file being written and the N-1 newest earlier files are kept and
-   only older files are removed.  The pinned source violates it in every rollover (C20_refuted_retention,
-   C20_refuted_retention_everywhere, C20_refuted_foreign_removed in Refuted.v).  Proved instead for the slice
-   files[:-max_days] (rollover_slice_code = 1, the suggested one-token repair) in directories without
-   sub-directories: a name disappears iff it is in the head of the sorted listing, exactly min(N, number of files)
-   entries of the listing stay, and every removed entry sorts below (is older than) every kept one. *)
-Theorem C20_retention_partial_repaired_slice : forall prefix n d date,
+(* Retention N > 0, for the source as it is now and for EVERY directory (foreign files, sub-directories, links present):
+   "only older files are removed".  A name disappears iff it is in the head of the sorted listing of the handler's own log
+   files; min(N, number of own log files) of them stay; every removed entry is an own log file sorting below (older
+   than) every kept one.  (Was C20_retention_partial_repaired_slice, stated for the hypothetical repair and for
+   directories without sub-directories only; finding C20/rollover-removes-newest repaired by 8755e5f.) *)
+Theorem C20_retention_only_older_removed : forall prefix n d date,
   let d1 := open_file d (log_name prefix date) in
-  let files := listing d1 in
+  let files := listing prefix d1 in
   let removed := firstn (length files - S n) files in
   let kept := skipn (length files - S n) files in
-  (forall e, In e d1 -> e_dir e = false) ->
-  snd (do_rollover SliceHead prefix (S n) d date) = false /\
-  (forall nm, has_name nm (fst (do_rollover SliceHead prefix (S n) d date)) =
+  (forall nm, has_name nm (do_rollover source_slice prefix (S n) d date) =
               has_name nm d1 && negb (has_name nm removed)) /\
   length kept = Nat.min (S n) (length files) /\
-  (forall r k, In r removed -> In k kept -> name_leb (e_name r) (e_name k) = true).
-Proof. intros prefix n d date. apply head_retention. Qed.
+  (forall r k, In r removed -> In k kept -> name_leb (e_name r) (e_name k) = true) /\
+  (forall r, In r removed -> In r d1 /\ own_log prefix r = true).
+Proof. intros prefix n d date. change source_slice with SliceHead. apply head_retention. Qed.
 
-(* ... and, the names of the directory being unique, every entry of that tail really stays; in particular the file being
-   written stays whenever its name sorts last (dates do not run backwards).  Together with the theorem above: with the
-   repaired slice, in a directory holding only files, the file being written and the N-1 entries sorting directly below it
-   are kept and only entries sorting below those are removed. *)
-Theorem C20_retention_partial_repaired_slice_keeps : forall prefix n d date,
+(* "the file being written and the N-1 newest earlier files are kept".  Full statement: for every directory.  Proved: the
+   N greatest own log files always stay (names being unique), and they are the file being written (the last of the
+   listing) and the N-1 files below it whenever no own log file is dated later than the file being written -- the
+   excluded class is exactly the open finding C20/rollover-later-dated-file (C20_refuted_later_dated_file).
+   (Was C20_retention_partial_repaired_slice_keeps + C20_written_file_is_last.) *)
+Theorem C20_retention_keeps_newest_except_later_dated_file : forall prefix n d date,
   let d1 := open_file d (log_name prefix date) in
-  let files := listing d1 in
-  (forall e, In e d1 -> e_dir e = false) ->
+  let files := listing prefix d1 in
   NoDup (names d) ->
-  (forall e, In e (skipn (length files - S n) files) ->
-             has_name (e_name e) (fst (do_rollover SliceHead prefix (S n) d date)) = true) /\
-  ((forall e, In e d1 -> e_name e <> cur_name -> name_leb (e_name e) (log_name prefix date) = true) ->
-   has_name (log_name prefix date) (fst (do_rollover SliceHead prefix (S n) d date)) = true).
-Proof. intros prefix n d date. apply head_keeps. Qed.
-
-(* in both slices the newest file of the listing is the file being written when its name sorts last *)
-Theorem C20_written_file_is_last : forall prefix date d,
-  (forall e, In e (open_file d (log_name prefix date)) -> e_name e <> cur_name ->
-             name_leb (e_name e) (log_name prefix date) = true) ->
-  e_name (last (listing (open_file d (log_name prefix date))) cur_entry) = log_name prefix date.
-Proof. intros; apply last_is_written; assumption. Qed.
+  (forall e, In e (skipn (length files - S n) files) -> In e (do_rollover source_slice prefix (S n) d date)) /\
+  ((forall e, In e d -> e_name e = log_name prefix date -> e_file e = true) ->
+   (forall e, In e d1 -> own_log prefix e = true -> name_leb (e_name e) (log_name prefix date) = true) ->
+   has_name (log_name prefix date) (do_rollover source_slice prefix (S n) d date) = true /\
+   e_name (last files cur_entry) = log_name prefix date).
+Proof. intros prefix n d date. change source_slice with SliceHead. apply head_keeps. Qed.
 
 (* non-vacuity: a history with two connections in which every clause of the property is exercised *)
 Definition mA : name := [109; 48]%N.
@@ -134,9 +135,14 @@ Example C20_demo :
   [(0, mA, s_info); (1, mB, s_warning); (1, mA, s_error)].
 Proof. vm_compute. reflexivity. Qed.
 
-Example C20_demo_rotation_repaired :
-  map e_name (sort (fst (do_rollover SliceHead frappy 2 [dated 1; dated 2; dated 3; dated 4] (date_n 5)))) =
-  [cur_name; log_name frappy (date_n 4); log_name frappy (date_n 5)].
+(* four dated files, a sub-directory, a foreign file and a link carrying a log name; retention 2 *)
+Example C20_demo_rotation :
+  map e_name (sort (do_rollover source_slice frappy 2
+     [dated 1; dated 2; {| e_name := [99; 111; 109]%N; e_file := false |}; dated 3; dated 4;
+      {| e_name := [122; 122]%N; e_file := true |}; {| e_name := log_name frappy (date_n 0); e_file := false |}]
+     (date_n 5))) =
+  [[99; 111; 109]%N; cur_name; log_name frappy (date_n 0); log_name frappy (date_n 4); log_name frappy (date_n 5);
+   [122; 122]%N].
 Proof. vm_compute. reflexivity. Qed.
 
 Print Assumptions C20_source_facts.
@@ -147,11 +153,9 @@ Print Assumptions C20_stop_ways.
 Print Assumptions C20_others_unaffected.
 Print Assumptions C20_rejected_request_no_effect.
 Print Assumptions C20_rollover_frame.
+Print Assumptions C20_foreign_entries_never_removed.
 Print Assumptions C20_retention_zero_keeps_all.
-Print Assumptions C20_retention_partial_repaired_slice.
-Print Assumptions C20_retention_partial_repaired_slice_keeps.
-Print Assumptions C20_written_file_is_last.
+Print Assumptions C20_retention_only_older_removed.
+Print Assumptions C20_retention_keeps_newest_except_later_dated_file.
 Print Assumptions C20_refuted_unnamed_level.
-Print Assumptions C20_refuted_retention.
-Print Assumptions C20_refuted_retention_everywhere.
-Print Assumptions C20_refuted_foreign_removed.
+Print Assumptions C20_refuted_later_dated_file.
